@@ -200,13 +200,13 @@ static int worker_main(int argc, char **argv) {
     unsigned long long evals = 0, nontrivial = 0, ticks = 0, micro = 0, switches = 0, worlds = 0, nviol = 0, nknown = 0;
     std::map<std::string,uint64_t> faults, counts, strategies;
     std::vector<js::Value> samples; js::Value smallest; long smallest_size = -1; js::Value most_faults; uint64_t most_faults_n = 0;
-    int rc = 0;
+    int rc = 0; unsigned long long nviol_dropped = 0;
     double last_summary = t0, slowest = 0; long long slowest_idx = -1;
 
     auto emit_summary = [&]() {
         js::Value s = js::Value::object();
         s.set("evaluations", evals); s.set("nontrivial", nontrivial); s.set("ticks", ticks); s.set("micro_ticks", micro);
-        s.set("switches", switches); s.set("worlds", worlds); s.set("violations", nviol); s.set("known_hits", nknown);
+        s.set("switches", switches); s.set("worlds", worlds); s.set("violations", nviol); s.set("violations_not_reported_individually", nviol_dropped); s.set("known_hits", nknown);
         s.set("faults", map_json(faults)); s.set("counts", map_json(counts)); s.set("strategies", map_json(strategies));
         std::map<std::string,uint64_t> pm; std::vector<std::pair<std::string,uint64_t> > ps = sim::probes_snapshot();
         for (size_t i = 0; i < ps.size(); ++i) pm[ps[i].first] = ps[i].second;
@@ -243,7 +243,8 @@ static int worker_main(int argc, char **argv) {
             uint64_t nf = 0; for (std::map<std::string,uint64_t>::iterator it = r.faults.begin(); it != r.faults.end(); ++it) nf += it->second;
             if (nf > most_faults_n) { most_faults_n = nf; most_faults = r.sample; }
         }
-        if (!r.v.empty()) {
+        if (!r.v.empty() && nviol >= 10) { nviol_dropped += r.v.size(); }      // enough replay files from this worker
+        else if (!r.v.empty()) {
             // classes already handled in this run
             std::set<std::string> done;
             for (size_t vi = 0; vi < r.v.size(); ++vi) {
